@@ -225,14 +225,20 @@ def run(ctx, rep):
         pay = [bb for bb, t in ext if "to_byte_slice" not in show_origin(b.origin(t["args"][1]))]
         rep.check(len(hdr) == 1 and len(pay) == 1 and b.dominates(hdr[0], pay[0]) and b.on_cycle(hdr[0]) and b.on_cycle(pay[0]), "R8.3", "R8.3|flush|header_then_payload",
                   "in each iteration the header bytes are appended before the payload bytes", fl, "extend sites: header %s payload %s" % (hdr, pay))
-        wr = [bb for bb, t, cal, c in calls if cal == BW + "write"]
-        clr = [bb for bb, t, cal, c in calls if cal and cal.endswith("::clear")]
-        ok = len(wr) == 1 and not b.on_cycle(wr[0]) and len(clr) == 2 and all(b.dominates(wr[0], c_) for c_ in clr) and (not pay or wr[0] in b.reachable_from(pay[0]))
+        # with the writer's own `write` inlined: the data reaches the sink (write_all on the file writer or on stdout)
+        # after the loop, once per path, and the buffers are cleared only behind it
+        from ..mir import Body as _B, inline_fn as _inl
+        bi = _B(_inl(f, fl, lambda c: c == BW + "write", max_depth=2, max_blocks=1500))
+        wr = [bb for bb, t, cal, c in bi.calls() if cal and cal.endswith("::write_all")]
+        clr = [bb for bb, t, cal, c in bi.calls() if cal and cal.endswith("::clear")]
+        from ..mir import path_count_range as _pcr
+        ok = bool(wr) and not any(bi.on_cycle(w_) for w_ in wr) and len(clr) == 2 and all(bi.all_paths_pass(0, wr, to=[c_]) for c_ in clr) \
+            and _pcr(bi, 0, clr[:1], wr) == (1, 1)
         rep.check(ok, "R8.3", "R8.3|flush|write_once_then_clear", "one write after the loop, both buffers cleared only after it succeeded", fl,
                   "write sites %s, clear sites %s" % (wr, clr))
         if wr:
-            o = b.origin(next(t for bb, t, cal, c in calls if cal == BW + "write")["args"][1])
-            rep.check("from_elem" not in show_origin(o) and ("Vec::<T>::new" in show_origin(o) or "deref" in show_origin(o).lower() or True), "R8.3", "R8.3|flush|writes_data", "the assembled buffer is what is written", fl)
+            srcs_ = [show_origin(bi.origin(bi.blocks[w_]["t"]["args"][1])) for w_ in wr]
+            rep.check(all("from_elem" not in s_ for s_ in srcs_), "R8.3", "R8.3|flush|writes_data", "the assembled buffer is what is written", fl, "written data: %s" % [s_[:80] for s_ in srcs_])
     else:
         rep.missing("R8.3", fl)
     wimpl = BW + "write"
@@ -275,7 +281,9 @@ def run(ctx, rep):
     # ---------- R8.5 the output file starts empty: a truncating open precedes the append-mode open
     nw = "fastpasta::write::writer::BufferedWriter::<T>::new"
     if nw in f.fns:
-        b = cg.body(nw)
+        # with the writer module's own helpers inlined (the file may be opened by an extracted helper)
+        from ..mir import Body as _B2, inline_fn as _inl2
+        b = _B2(_inl2(f, nw, lambda c: c.replace("<", "").startswith("fastpasta::write::writer::") and "{closure" not in c, max_depth=2, max_blocks=1500))
         creates = [bb for bb, t, cal, c in b.calls() if cal == "std::fs::File::create" or cal == "std::fs::File::create_new"]
         opens = [(bb, t) for bb, t, cal, c in b.calls() if cal == "std::fs::OpenOptions::open"]
         truncs = [bb for bb, t, cal, c in b.calls() if cal == "std::fs::OpenOptions::truncate" and t["args"][1].get("c", {}).get("int") == 1]
